@@ -68,22 +68,36 @@ def eval_polygon(case):
     def bad(cls, obs, msg, extra=()):
         out.append(({"cls": cls, "obs": obs, "tags": tags + list(extra), "msg": msg}, {"case": case, "cls": cls}))
 
-    for nz in (1,):
+    def check_polygon(make, how):
         try:
-            P = coxeter.shapes.ConvexPolygon(v3.copy(), normal=[0, 0, nz])
+            P = make()
+            if P is None:
+                return
             snap = thetas.copy()
             got = np.asarray(P.distance_to_surface(thetas), dtype=float)
             if not np.array_equal(snap, thetas):
-                bad("ConvexPolygon", "distance_to_surface_args", "the angle array was modified")
+                bad("ConvexPolygon", "distance_to_surface_args", "the angle array was modified", how)
             if got.shape != want.shape or not np.all(np.isfinite(got)) or np.max(np.abs(got - want)) > 1e-9 * size:
                 k = int(np.argmax(np.abs(np.where(np.isfinite(got), got, 1e300) - want))) if got.shape == want.shape else 0
                 kind = "vertex_direction" if abs(meta[k][0]) > 2 or abs(meta[k][1]) > 2 else \
                     "axis_direction" if 0 in meta[k] else "generic_direction"
                 bad("ConvexPolygon", "distance_to_surface",
                     f"theta = {thetas[k]!r} (direction {meta[k]}): returned {got[k] if got.shape == want.shape else got.shape!r}, "
-                    f"exact radial distance {want[k]!r}", [kind, "winding%+d" % KS[k % len(KS)]])
+                    f"exact radial distance {want[k]!r}" + (f" ({how[0]})" if how else ""), [kind, "winding%+d" % KS[k % len(KS)]] + how)
         except Exception as e:
-            bad("ConvexPolygon", "distance_to_surface", f"raised {type(e).__name__}: {e}", ["raised"])
+            bad("ConvexPolygon", "distance_to_surface", f"raised {type(e).__name__}: {e}", ["raised"] + how)
+
+    from .history import reach
+    var = len(rec["v"]) + len(tags)
+    check_polygon(lambda: coxeter.shapes.ConvexPolygon(v3.copy(), normal=[0, 0, 1]), [])
+    # the same polygon reached by queries and public setters, and as the live core of a rounded polygon that was queried,
+    # resized and moved (ShapeMachine: ReachByHistory): the answers depend on the current geometry only
+    check_polygon(lambda: reach("ConvexPolygon", v3, normal=[0, 0, 1], variant=var), ["reached_by_history"])
+
+    def core_of_reached():
+        Qh = reach("ConvexSpheropolygon", v3, 0.3 * size, normal=[0, 0, 1], variant=var)
+        return None if Qh is None else Qh.polygon
+    check_polygon(core_of_reached, ["core_of_rounded_reached_by_history"])
     # spheropolygon: defining identity on the output
     for rfrac in case["radii"]:
         r = float(F(rfrac[0], rfrac[1])) * size
